@@ -13,9 +13,11 @@
    Tamper           an alphabet of single alterations of a proof: drop a node; alter a child hash
                     (junk, copy of the sibling); swap children; flip / shorten / lengthen an edge
                     path; replace the leaf value (alone, or re-hashing the whole path); query another
-                    key; store the altered node under its old key, under its new hash, or (trie2)
-                    alter the in-memory object in place keeping its cached hash; retype a trie2
-                    child between hash and value.
+                    key; store the altered node under its old key or under its new hash; retype a
+                    trie2 child between hash and value.  Every altered node is REBUILT from its
+                    content (no cached hash): a proof received from outside never carries
+                    nodeFlag.Hash, so "altered in place with the cache kept" is not a tampering of a
+                    proof but an artefact of mutating in-memory objects, and is not generated.
 
    Hashes are injective terms.  Properties, for every key/value set, key and tampering:
      Completeness   Verify(Root(kv), k, Prove(k)) = kv[k]   (absent keys at every divergence depth)
@@ -25,11 +27,11 @@
      EmptyTrieVerifies   code: both verifiers answer "proof node not found" for the empty trie
      CheckValueDepth     code (trie2): a child TYPED as value ends the walk at any depth, so a node whose
                          hash child is retyped as value "proves" an inner hash as the key's value
-     IgnoreCachedHash    code (trie2): hasher.hash trusts nodeFlag.Hash of the proof node, so an object
-                         altered in place (Prove returns nodes that carry their cached hash) passes *)
+   (trie2's hasher.hash trusts nodeFlag.Hash of a proof node; honest nodes returned by Prove carry a
+   correct cache and rebuilt nodes carry none, so the cache never changes a verdict here.) *)
 EXTENDS Trie
 
-CONSTANTS MaxKeys, EmptyTrieVerifies, CheckValueDepth, IgnoreCachedHash
+CONSTANTS MaxKeys, EmptyTrieVerifies, CheckValueDepth
 
 VARIABLES kv, act, res
 vars == <<kv, act, res>>
@@ -97,7 +99,8 @@ VLegacy(pf, key, expected, pos, fuel) ==
             ELSE IF pos + Len(n.p) >= H THEN Val(n.c.h)
             ELSE VLegacy(pf, key, n.c.h, pos + Len(n.p), fuel - 1)
 
-HashUsed(n) == IF ~IgnoreCachedHash /\ n.cache # NoHash THEN n.cache ELSE NodeHash(n)
+\* a cached hash, when present, is the node's own hash (honest nodes) - see the header
+HashUsed(n) == NodeHash(n)
 RECURSIVE VTrie2(_, _, _, _)
 VTrie2(pf, rem, expected, fuel) ==
   IF fuel = 0 THEN Err
@@ -119,7 +122,7 @@ Verify(impl, root, key, pf) ==
 ----------------------------------------------------------------------------
 (* Tampering.  A tamper is a record; Apply yields the tampered proof (and Target the queried key). *)
 AlterOps == {"l:=junk", "r:=junk", "l:=r", "r:=l", "swap", "c:=junk", "flip", "short", "long", "retype-l", "retype-r", "retype-c"}
-Modes == {"keep", "rekey", "mem"}   \* stored under the old key (rebuilt) | under its new hash | altered in place (cache kept)
+Modes == {"keep", "rekey"}   \* the rebuilt node is stored under the old key | under its new hash
 
 Retyped(r) == Ref(IF r.k = "hash" THEN "value" ELSE "hash", r.h)
 Applicable(n, op) ==
@@ -142,8 +145,7 @@ Altered(n, op) ==
 AlterAt(pf, i, op, mode) ==
   LET n2 == Altered(pf[i].n, op) IN
   [pf EXCEPT ![i] = CASE mode = "keep" -> [key |-> pf[i].key, n |-> Fresh(n2)]
-                      [] mode = "rekey" -> [key |-> NodeHash(n2), n |-> Fresh(n2)]
-                      [] mode = "mem" -> [key |-> pf[i].key, n |-> n2]]
+                      [] mode = "rekey" -> [key |-> NodeHash(n2), n |-> Fresh(n2)]]
 
 DropAt(pf, i) == [j \in 1..(Len(pf) - 1) |-> IF j < i THEN pf[j] ELSE pf[j + 1]]
 
@@ -174,7 +176,6 @@ Enabled(pf, impl, tm) ==
     [] tm.op = "leaf-rehash" -> Len(pf) > 0
     [] OTHER -> /\ tm.i \in 1..Len(pf)
                 /\ Applicable(pf[tm.i].n, tm.op)
-                /\ (tm.mode = "mem" => impl = "trie2")
                 /\ (tm.op \in {"retype-l", "retype-r", "retype-c"} => impl = "trie2" /\ tm.mode # "rekey")
 
 Apply(pf, key, tm) ==
@@ -217,9 +218,9 @@ Soundness ==
       Enabled(pf, q[2], tm) =>
         LET o == Verify(q[2], Root(kv), Target(q[1], tm), Apply(pf, q[1], tm)) IN
         o = Err \/ o = TrueVal(kv, Target(q[1], tm))
-\* what holds for the code as it is: wire-level tampering (nodes rebuilt from their content, children
-\* typed by depth) never forges; completeness except for the empty trie
-WireLevel(tm) == tm.op \notin {"retype-l", "retype-r", "retype-c"} /\ (tm.op \in AlterOps => tm.mode # "mem")
+\* what holds for the code as it is: wire-level tampering (children typed by depth, i.e. no retyping)
+\* never forges; completeness except for the empty trie
+WireLevel(tm) == tm.op \notin {"retype-l", "retype-r", "retype-c"}
 SoundnessWire ==
   \A q \in AllQueries(kv) :
     LET pf == Prove(kv, q[2], q[1], q[3]) IN
